@@ -572,7 +572,91 @@ func engineCrashWrite(ctx *Ctx) {
 	if ctx.Shard == 2%ctx.NShards || ctx.Shard == (ctx.NShards/2+2)%ctx.NShards {
 		c09InProcess(ctx, base)
 	}
+	// Flavour 9: the configuration directory does not allow new files (mode 0555, a directory owned by an administrator) while
+	// the files in it are the user's own and writable, and the write that is attempted fails after k bytes. Needs an
+	// unprivileged process (root ignores modes): the binary runs under setpriv as uid 65534.
+	if ctx.Shard == 3%ctx.NShards || ctx.Shard == (ctx.NShards/2+3)%ctx.NShards {
+		c09ReadOnlyDir(ctx, base, mainP)
+	}
 	ctx.R.Extra["strace_version"] = strings.TrimSpace(strings.SplitN(runOut("strace", "-V"), "\n", 2)[0])
+}
+
+func c09ReadOnlyDir(ctx *Ctx, base, mainP string) {
+	sp, err := exec.LookPath("setpriv")
+	if err != nil {
+		ctx.R.Path("setpriv-unavailable", 1)
+		return
+	}
+	os.Chmod(ctx.Scratch, 0o755)
+	os.Chmod(base, 0o755)
+	os.Chmod(mainP, 0o644)
+	type sc struct {
+		name   string
+		target func(h *Home) string
+		old    []byte
+		op     c09Op
+	}
+	scs := []sc{
+		{"notebook", func(h *Home) string { return h.Personal() }, c09Notebook(25), c09Op{"save", []string{"save", "--keywords=new,entry", "--", "echo brand-new-command", "a new description saved now"}, "notebook", "saved successfully"}},
+		{"notebook", func(h *Home) string { return h.Personal() }, c09Notebook(25), c09Op{"save-replace", []string{"save", "--keywords=changed", "--", "saved-tool-0 --flag value0 | sort", "the description was edited and is now different"}, "notebook", "saved successfully"}},
+		{"history", func(h *Home) string { return h.History() }, c09History(30), c09Op{"search", []string{"--database", mainP, "--all-platforms", "--", "compress directory"}, "history", ""}},
+	}
+	ks := []int64{-1, 0, 1, 2, 17, 100, 511, 512, 1000, 1024, 2000, 3000, 4095, 4096, 4097, 5000}
+	for si, s := range scs {
+		for _, k := range ks {
+			hb := filepath.Join(base, fmt.Sprintf("rod%d", si))
+			os.RemoveAll(hb)
+			h := NewHome(hb)
+			dst := s.target(h)
+			os.MkdirAll(filepath.Dir(dst), 0o755)
+			os.MkdirAll(h.Cwd, 0o755)
+			os.WriteFile(dst, s.old, 0o644)
+			filepath.Walk(hb, func(p string, _ os.FileInfo, _ error) error { os.Chown(p, 65534, 65534); return nil })
+			os.Chmod(filepath.Dir(dst), 0o555)
+			cs := map[string]interface{}{"scenario": s.name + " in a directory that allows no new files", "op": s.op.Name, "write_limit_bytes": k, "old_len": len(s.old), "uid": 65534}
+			ctx.R.Begin(cs)
+			ctx.R.Eval(1)
+			argv := []string{}
+			if k >= 0 {
+				argv = append(argv, "prlimit", fmt.Sprintf("--fsize=%d", k))
+			}
+			argv = append(argv, sp, "--reuid", "65534", "--regid", "65534", "--clear-groups", ctx.Wtf)
+			argv = append(argv, s.op.Args...)
+			res := h.RunCmd(60*time.Second, nil, argv...)
+			os.Chmod(filepath.Dir(dst), 0o755)
+			got, _ := os.ReadFile(dst)
+			ctx.R.Path("read-only-directory-runs", 1)
+			ctx.R.Nontriv("rod", s.op.Name, k)
+			if bad, why := res.Crashed(); bad {
+				ctx.R.Violate(vlib.Violation{Property: "C09", Clause: "crash-on-write-failure", Path: s.op.Name + "/read-only-directory", Detail: why, Witness: cs})
+				continue
+			}
+			state := "torn"
+			switch {
+			case bytes.Equal(got, s.old):
+				state = "old"
+			case s.op.Target == "history":
+				if _, ok := c09HistKey(got); ok && len(got) >= len(s.old) {
+					state = "new"
+				}
+			case s.op.Target == "notebook":
+				if db, err := database.LoadDatabase(dst); err == nil && len(db.Commands) >= 25 && strings.Contains(res.Stdout, s.op.OkMsg) {
+					state = "new"
+				}
+			}
+			ctx.R.Path("after-read-only-directory-"+state, 1)
+			if state == "torn" {
+				ctx.R.Violate(vlib.Violation{Property: "C09", Clause: "torn-file", Path: s.op.Name + "/read-only-directory",
+					Detail:  fmt.Sprintf("%s in a directory of mode 0555, write limit %d bytes: the file holds %d bytes, neither the complete previous content (%d bytes) nor a complete new one", s.name, k, len(got), len(s.old)),
+					Witness: map[string]interface{}{"case": cs, "stdout": vlib.Trunc(res.Stdout, 300), "stderr": vlib.Trunc(res.Stderr, 300)}})
+			}
+			if s.op.OkMsg != "" && strings.Contains(res.Stdout, s.op.OkMsg) && bytes.Equal(got, s.old) {
+				ctx.R.Violate(vlib.Violation{Property: "C09", Clause: "success-reported-but-not-saved", Path: s.op.Name + "/read-only-directory",
+					Detail: "save printed its success message but the notebook is unchanged", Witness: cs})
+			}
+			os.RemoveAll(hb)
+		}
+	}
 }
 
 // c09AfterEarlierWrites: on files last written days ago (and on fresh ones), two ordinary writes succeed, then a third one
